@@ -296,7 +296,9 @@ def cmd_selftest(argv):
     for prop in args.props.split(","):
         for s in range(args.seeds):
             logs = []
-            for (nsh, hs) in ((4, 0), (16, 1)):
+            # second layout: other shard count, and another hash seed where the engine's
+            # executions do not depend on it (engine A: dask graph construction does)
+            for (nsh, hs) in ((4, 0), (16, CONF[prop].get("shadow_hashseed", 1))):
                 state = {"runs": {}}
 
                 def on_msg(shard, msg, state=state):
@@ -317,7 +319,7 @@ def cmd_selftest(argv):
                 logs.append(state["runs"])
             diff = [i for i in logs[0] if logs[0][i] != logs[1].get(i)]
             print(f"selftest determinism {prop} VERIF_SEED={1000 + s}: {len(logs[0])} runs, "
-                  f"{len(diff)} digests differ between (4 workers, hashseed 0) and (16 workers, hashseed 1)")
+                  f"{len(diff)} digests differ between (4 workers, hashseed 0) and (16 workers, hashseed {CONF[prop].get('shadow_hashseed', 1)})")
             if diff or len(logs[0]) != len(logs[1]):
                 bad += 1
                 print("   first differing runs:", diff[:5])
